@@ -413,6 +413,46 @@ func stsDeadlock(dump string) (string, string) {
 	if waiter == "" {
 		return "", ""
 	}
+	// who could hold the lock?  Only goroutines that are inside the waiter's package.  If
+	// one of them is in the middle of something (more than its idle loop on the stack) and
+	// waits for a channel, a reader or a wait group, it may hold the lock while it waits for
+	// an event the harness failed to deliver (a connection that would have broken): not
+	// decided.  The lock is only provably orphaned when every goroutine inside that package
+	// waits for a mutex itself or sits idle in its worker loop.
+	pkg := ""
+	for _, ln := range strings.Split(waiter, "\n") {
+		if strings.HasPrefix(ln, "github.com/arm-doe/sts/") && !strings.Contains(ln, "zzverif") {
+			rest := strings.TrimPrefix(ln, "github.com/arm-doe/sts/")
+			if i := strings.IndexAny(rest, ".("); i > 0 {
+				pkg = "github.com/arm-doe/sts/" + rest[:i] + "."
+			}
+			break
+		}
+	}
+	if pkg == "" {
+		return "", ""
+	}
+	for _, g := range gs {
+		if g.bubble != maxB {
+			continue
+		}
+		n := 0
+		for _, ln := range strings.Split(g.stack, "\n") {
+			if strings.HasPrefix(ln, pkg) {
+				n++
+			}
+		}
+		if n == 0 {
+			continue
+		}
+		st := g.state
+		if strings.HasPrefix(st, "sync.Mutex.Lock") || strings.HasPrefix(st, "sync.RWMutex") || strings.HasPrefix(st, "semacquire") {
+			continue
+		}
+		if n > 1 {
+			return "", "" // busy inside the package and waiting for something else
+		}
+	}
 	fn := ""
 	for _, ln := range strings.Split(waiter, "\n") {
 		if strings.HasPrefix(ln, "github.com/arm-doe/sts/") && !strings.Contains(ln, "zzverif") {
